@@ -183,7 +183,7 @@ func runCheck(o checkOpts) int {
 		sort.Slice(l.Obligations, func(i, j int) bool { return l.Obligations[i].Name < l.Obligations[j].Name })
 		l.LoopKeys = map[string][]string{}
 		for fn := range e.loopCache {
-			if len(e.loopCache[fn]) >= 2 {
+			if len(e.loopCache[fn]) >= 1 {
 				if hs := e.loopHeaders(fn); len(hs) == len(e.loopCache[fn]) {
 					l.LoopKeys[fn.String()] = hs
 				}
